@@ -137,7 +137,7 @@ def coq_sources():
     out = []
     for d, _, fs in os.walk(COQ):
         for f in fs:
-            if f.endswith(".v") and not f.startswith("_cg_tmp"):
+            if f.endswith(".v") and not f.startswith("_"):
                 out.append(os.path.relpath(os.path.join(d, f), COQ))
     return sorted(out)
 
